@@ -253,7 +253,7 @@ class C12(Check):
                   'single instructions. Yield points exist only in clastic/generated/harness code.')
     runs = {'quick': 2000, 'thorough': 40000}
     shrink_lists = (('preempts',), ('hot_bits',), ('hot_funcs',), ('ticks',), ('requests',), ('marathon', 'T0'), ('marathon', 'T1'), ('marathon', 'T2'), ('marathon', 'T3'))
-    hashseeds = {'quick': ['1:O'], 'thorough': ['1:O', 2]}
+    hashseeds = {'quick': ['1:OA'], 'thorough': ['1:OA', 2]}
     rule = ('seeded schedules (PCT priority-change, uniform random, targeted bursts) plus a complete '
             'depth-1 pre-emption sweep over ordered request pairs; 2-4 real threads on one shared '
             'Application, pre-empted only at sys.monitoring LINE/INSTRUCTION events in clastic, '
